@@ -1630,10 +1630,20 @@ std::string Generator::GeneratorImpl::generateCode(const AnalyserEquationAstPtr 
             code = generateCode(ast->leftChild()) + generatePiecewiseElseCode(mProfile->nanString());
         }
     } break;
-    case AnalyserEquationAst::Type::PIECE:
-        code = generatePiecewiseIfCode(generateCode(ast->rightChild()), generateCode(ast->leftChild()));
+    case AnalyserEquationAst::Type::PIECE: {
+        auto conditionCode = generateCode(ast->rightChild());
+        auto valueCode = generateCode(ast->leftChild());
 
-        break;
+        if (isPiecewiseStatement(ast->rightChild())) {
+            conditionCode = "(" + conditionCode + ")";
+        }
+
+        if (isPiecewiseStatement(ast->leftChild())) {
+            valueCode = "(" + valueCode + ")";
+        }
+
+        code = generatePiecewiseIfCode(conditionCode, valueCode);
+    } break;
     case AnalyserEquationAst::Type::OTHERWISE:
         code = generateCode(ast->leftChild());
 
